@@ -193,7 +193,7 @@ def main():
         cov.setdefault("evaluations", len(own)); cov.setdefault("distinct_nontrivial", len({o["name"] for o in own})); cov.setdefault("rule", "one evaluation per proof obligation")
     ev = dict(property_id=pid, tier=tier, seed=seed, level=level, coverage=cov, wall_s=round(time.time() - t0, 2), violations=len(lines),
               assumptions=sorted(P["assumptions"]) + P["axioms"] + GLOBAL_ASSUMPTIONS + plan.get("assumptions", []))
-    json.dump(ev, open(os.path.join(VERIF, "evidence", f"{pid}.json"), "w"), indent=1)
+    json.dump(ev, open(os.path.join(os.environ.get("VF_EVIDENCE_DIR") or os.path.join(VERIF, "evidence"), f"{pid}.json"), "w"), indent=1)
     for l in known_lines[:20]: print(l)
     for l in notes: print(l)
     for l in lines: print(l)
